@@ -54,6 +54,8 @@ def _applicable(action, tmpl):
         return len(G.SRC.get(t.get("src"), [])) > 9
     if action in ("src10", "src11", "src12", "src13"):
         return len(G.SRC.get(t.get("src"), [])) > 13
+    if action in ("src14", "src15"):
+        return len(G.SRC.get(t.get("src"), [])) > 15
     if action in ("out_ec",):
         return t["type"] == "code" and bool(t.get("outputs")) and t["outputs"][-1].startswith("result")
     if action in ("out_edit_ec", "out_edit2_ec"):
